@@ -88,11 +88,18 @@ pub fn cases(rng: &mut Rng, count: usize, tier: &str) -> Vec<Case> {
                     s.push(p);
                 }
             }
-            // a replaced term together with its replacement (collision)
-            if let Some(t) = f.terms.iter().find(|t| t.replacement.map_or(false, |r| f.has(r))) {
-                if rng.chance(1, 2) {
-                    s.push(t.id);
-                    s.push(t.replacement.unwrap());
+            // a replaced term together with its replacement (collision); every such pair in turn,
+            // so that chains a -> b -> c put a and b into one set
+            let pairs: Vec<(u32, u32)> = f.terms.iter().filter_map(|t| t.replacement.filter(|r| f.has(*r)).map(|r| (t.id, r))).collect();
+            if !pairs.is_empty() && rng.chance(2, 3) {
+                let (a, b) = *rng.pick(&pairs);
+                s.push(a);
+                s.push(b);
+                // and the replacement's own replacement chain partner
+                if let Some((_, c)) = pairs.iter().find(|(x, _)| *x == b) {
+                    if rng.chance(1, 2) {
+                        s.push(*c);
+                    }
                 }
             }
             rng.shuffle(&mut s);
